@@ -396,7 +396,277 @@ def r06_6(ctx: Ctx) -> None:
     c01.r01_1(ctx, rule="R06.6", decoder_only=True)
 
 
+def _enclosing_conditions(f: Func, stmt: ast.AST):
+    """[(test, polarity)] of the if-statements that enclose stmt (structural; else-arm => polarity False)."""
+    from ..model import parent_map
+    pm = parent_map(f.node)
+    out = []
+    cur = stmt
+    while cur in pm:
+        par = pm[cur]
+        if isinstance(par, ast.If):
+            if any(cur is x for x in par.body):
+                out.append((par.test, True))
+            elif any(cur is x for x in par.orelse):
+                out.append((par.test, False))
+        cur = par
+    return out
+
+
+def _prop_eval(f: Func, e: ast.AST, classify, env) -> Optional[bool]:
+    """value of a propositional combination of classified atoms under env (atom key -> bool); None when an atom is unknown."""
+    if isinstance(e, ast.BoolOp):
+        vals = [_prop_eval(f, v, classify, env) for v in e.values]
+        if any(v is None for v in vals):
+            return None
+        return all(vals) if isinstance(e.op, ast.And) else any(vals)
+    if isinstance(e, ast.UnaryOp) and isinstance(e.op, ast.Not):
+        v = _prop_eval(f, e.operand, classify, env)
+        return None if v is None else (not v)
+    c = classify(q.expand_locals(f, e))
+    if c is None:
+        return None
+    key, positive = c
+    return env[key] if positive else (not env[key])
+
+
+def r06_9(ctx: Ctx) -> None:
+    """SubStreamsInfo kCRC: the number of 'defined' flags that are READ (counting loop) and the number that are CONSUMED (distribution
+    loop) are decided per folder by two separately written predicates over (stream count == 1, folder digest defined, folder crc
+    present).  They must be propositionally equivalent (under 'digest defined => crc present', which Folder._read establishes);
+    otherwise a valid archive with folder CRCs and a multi-stream folder is refused (IndexError) or digests go to the wrong member."""
+    f = ctx.prog.func("archiveinfo", "SubstreamsInfo._read")
+
+    def is_count(e: ast.AST) -> bool:
+        """e denotes the per-folder stream count (directly, or a local every assignment of which reads it)."""
+        if "num_unpackstreams_folders" in norm(e):
+            return True
+        if isinstance(e, ast.Name):
+            vals = q.assigned_values(f, e.id)
+            return bool(vals) and all("num_unpackstreams_folders" in norm(v) for v in vals)
+        return False
+
+    def classify(e: ast.AST):
+        t = norm(e)
+        if isinstance(e, ast.Compare) and len(e.ops) == 1 and isinstance(e.comparators[0], ast.Constant):
+            nt = q.is_none_test(e)
+            if nt is not None and "crc" in norm(nt[0]):
+                return ("crc", not nt[1])
+            if e.comparators[0].value == 1 and is_count(e.left):
+                if isinstance(e.ops[0], ast.Eq):
+                    return ("one", True)
+                if isinstance(e.ops[0], ast.NotEq):
+                    return ("one", False)
+        if isinstance(e, ast.Attribute) and e.attr == "digestdefined":
+            return ("dd", True)
+        return None
+
+    def formula_true(conds, env) -> Optional[bool]:
+        for test, pol in conds:
+            v = _prop_eval(f, test, classify, env)
+            if v is None:
+                return None
+            if v != pol:
+                return False
+        return True
+
+    counting = [n for n in walk(f.node) if isinstance(n, ast.AugAssign) and isinstance(n.op, ast.Add) and isinstance(n.target, ast.Name)
+                and is_count(n.value) and _enclosing_conditions(f, n)]
+    # the cursor into the flag vector: a name that indexes the result of read_boolean and is advanced by one
+    flagvecs = {t.id for n in walk(f.node) if isinstance(n, ast.Assign) and isinstance(n.value, ast.Call) and attr_tail(n.value) == "read_boolean"
+                for t in n.targets if isinstance(t, ast.Name)}
+    cursors = {norm(x.slice) for x in walk(f.node) if isinstance(x, ast.Subscript) and isinstance(x.value, ast.Name) and x.value.id in flagvecs and isinstance(x.slice, ast.Name)}
+    consuming = [n for n in walk(f.node) if isinstance(n, ast.AugAssign) and isinstance(n.op, ast.Add) and isinstance(n.target, ast.Name)
+                 and n.target.id in cursors and isinstance(n.value, ast.Constant) and n.value.value == 1]
+    ctx.floor("R06.9", len(counting), 1, "conditional count of substream digests")
+    ctx.floor("R06.9", len(consuming), 1, "advance of the cursor into the defined-flags vector")
+    if not counting or not consuming:
+        return
+    cnt, con = counting[0], consuming[0]
+    c1 = _enclosing_conditions(f, cnt)
+    # only conditions inside the per-folder loop matter for the consumer (drop the enclosing `if pid == CRC`, `if defined[didx]`)
+    c2 = [(t, p) for t, p in _enclosing_conditions(f, con) if not any(isinstance(x, ast.Name) and x.id in ("pid",) for x in ast.walk(t))
+          and not any(isinstance(x, ast.Subscript) and isinstance(x.value, ast.Name) and x.value.id in flagvecs for x in ast.walk(t))]
+    diffs = []
+    unknown = False
+    for one in (True, False):
+        for dd in (True, False):
+            for crc in ((True,) if dd else (True, False)):
+                env = {"one": one, "dd": dd, "crc": crc}
+                a, b = formula_true(c1, env), formula_true(c2, env)
+                if a is None or b is None:
+                    unknown = True
+                elif a != b:
+                    diffs.append(f"count==1:{one} folder-digest:{dd} -> counted:{a} consumed:{b}")
+    if unknown:
+        ctx.fail("R06.9", f, con, "the per-folder predicates of the digest count / digest distribution use a test this rule cannot classify "
+                 "(expected: stream count == 1, folder.digestdefined, folder.crc is not None)", construct="substream digest predicates")
+        return
+    ctx.check(not diffs, "R06.9", f, con, "SubStreamsInfo digests: counted flags == consumed flags for every folder shape",
+              "the number of digest flags read and the number consumed disagree for " + "; ".join(diffs) +
+              ": a valid archive with folder CRCs and such a folder fails to open (IndexError) or members get each other's digests",
+              construct="substream digest predicates")
+
+
+def r06_10(ctx: Ctx, rule: str = "R06.10") -> None:
+    """folder task window: each folder task started by Worker.extract gets the member list of folder I and the byte window
+    [start + positions[I], start + positions[I + 1]) with the SAME index I into two parallel, unfiltered sequences
+    (unpackinfo.folders, packinfo.packpositions). A filtered folder list indexed by its own position reads later folders from the
+    offsets of earlier ones."""
+    ex = ctx.prog.func("py7zr", "Worker.extract")
+
+    def ends_in(e: ast.AST, attr: str, depth: int = 4) -> bool:
+        if isinstance(e, ast.Attribute):
+            return e.attr == attr
+        if isinstance(e, ast.Name) and depth > 0:
+            vals = q.assigned_values(ex, e.id)
+            return bool(vals) and all(ends_in(v, attr, depth - 1) for v in vals)
+        return False
+
+    sites = []
+    for c in q.calls(ex):
+        if "py7zr:Worker.extract_single" in shared.targets_of(ctx, ex, c) and len(c.args) >= 5:
+            sites.append((c, c.args[1], c.args[3], c.args[4]))
+        else:
+            tup = next((k.value for k in c.keywords if k.arg == "args"), None)
+            tgt = next((k.value for k in c.keywords if k.arg == "target"), None)
+            if isinstance(tup, ast.Tuple) and tgt is not None and len(tup.elts) >= 5:
+                sites.append((c, tup.elts[1], tup.elts[3], tup.elts[4]))
+    n = 0
+    for c, files, start, end in sites:
+        if not q.enclosing_loops(ex, c):
+            continue  # single-folder arm and the empty-file call carry no index
+        n += 1
+        fsub = files.value if isinstance(files, ast.Attribute) and files.attr == "files" else None
+        ok = isinstance(fsub, ast.Subscript)
+        why = "the member list is not `folders[I].files`"
+        if ok:
+            idx = norm(fsub.slice)
+            ssubs = [x for x in ast.walk(start) if isinstance(x, ast.Subscript)]
+            esubs = [x for x in ast.walk(end) if isinstance(x, ast.Subscript)]
+            ok = len(ssubs) == 1 and len(esubs) == 1 and norm(ssubs[0].slice) == idx and norm(esubs[0].slice).replace(" ", "") in (f"{idx}+1", f"1+{idx}") \
+                and norm(ssubs[0].value) == norm(esubs[0].value)
+            why = f"window {norm(start)} .. {norm(end)} is not positions[{idx}] .. positions[{idx} + 1] of one sequence"
+            if ok:
+                ok = ends_in(fsub.value, "folders") and ends_in(ssubs[0].value, "packpositions")
+                why = (f"`{norm(fsub.value)}` / `{norm(ssubs[0].value)}` are not the archive's full folder list and pack positions on every path "
+                       "(e.g. the folder list is filtered but still indexed by position)")
+        ctx.check(ok, rule, ex, c, "folder task gets folders[I].files with window positions[I]..positions[I+1]",
+                  "a folder task is started with a member list and a byte window that do not belong to the same folder: " + why +
+                  "; later folders are decoded from the wrong offset (CrcError, or another member's bytes where no CRC is stored)",
+                  construct=f"task window {norm(files)[:40]}")
+    ctx.floor(rule, n, 2, "indexed folder task dispatches in Worker.extract")
+
+
+def r06_11(ctx: Ctx) -> None:
+    """7zAES coder properties are taken apart as the format lays them out (any legal salt/iv size, including iv size 0)."""
+    from ..bitdom import aes_property_agreement
+    aes_property_agreement(ctx, "R06.11")
+
+
+def _cmp_with_small(e: ast.AST, is_count) -> bool:
+    """does e contain a comparison of the stream count with 0 / 1 that separates 0 from the positive counts?"""
+    for n in ast.walk(e):
+        if isinstance(n, ast.Compare) and len(n.ops) == 1 and isinstance(n.comparators[0], ast.Constant) and is_count(n.left):
+            v, op = n.comparators[0].value, n.ops[0]
+            if (v == 0 and isinstance(op, (ast.Eq, ast.NotEq, ast.Gt, ast.LtE))) or (v == 1 and isinstance(op, (ast.GtE, ast.Lt))):
+                return True
+    return False
+
+
+def r06_12(ctx: Ctx, rule: str = "R06.12") -> None:
+    """folders WITHOUT substreams (NumUnpackStream 0 is legal, and py7zr's own append of only directories / empty files writes one):
+    (a) the member->folder walk passes over them before it binds a member to `folders[cursor]`;
+    (b) the SubStreamsInfo reader does not invent an implied 'last' size for them;
+    (c) Folder.files (None until a member is bound) is not iterated without a not-None guard when folder tasks are dispatched."""
+    # (a) ---------------------------------------------------------------------------------------------------------
+    g = shared.szf(ctx, "_real_get_contents")
+
+    def is_count_g(e: ast.AST) -> bool:
+        return "num_unpackstreams_folders" in norm(q.expand_locals(g, e))
+
+    def is_folders(e: ast.AST) -> bool:
+        if norm(e).endswith("unpackinfo.folders"):
+            return True
+        return isinstance(e, ast.Name) and any(norm(v).endswith("unpackinfo.folders") for v in q.assigned_values(g, e.id))
+
+    binds = [n for n in walk(g.node) if isinstance(n, ast.Assign) and isinstance(n.value, ast.Subscript) and is_folders(n.value.value)
+             and not isinstance(n.value.slice, (ast.Constant, ast.Slice)) and q.enclosing_loops(g, n)]
+    ctx.floor(rule, len(binds), 1, "member-to-folder binding in _real_get_contents")
+    cfg = cfg_of(g.node)
+    for b in binds:
+        bn = q.node_for(g, b)
+        tests = [t for t in cfg.nodes if t.kind == "test" and _cmp_with_small(t.ast, is_count_g) and cfg.dominates(t, bn)
+                 and q.enclosing_loops(g, t.ast) and q.enclosing_loops(g, b) and q.enclosing_loops(g, t.ast)[0] is q.enclosing_loops(g, b)[0]]
+        ctx.check(bool(tests), rule, g, b, "zero-stream folders are passed over before a member is bound to folders[cursor]",
+                  "the member->folder walk binds the next non-empty member to `folders[cursor]` without first passing over folders that hold no substream: "
+                  "after a folder with NumUnpackStream 0 every later member is bound to the wrong folder and byte position (valid archive refused or wrong data)",
+                  construct="zero-stream folder skip")
+    # (b) ---------------------------------------------------------------------------------------------------------
+    f = ctx.prog.func("archiveinfo", "SubstreamsInfo._read")
+
+    def is_count_f(e: ast.AST) -> bool:
+        if "num_unpackstreams_folders" in norm(e):
+            return True
+        if isinstance(e, ast.Name):
+            vals = q.assigned_values(f, e.id)
+            return bool(vals) and all("num_unpackstreams_folders" in norm(v) for v in vals)
+        return False
+
+    implied = [c for c in q.calls(f) if attr_tail(c) == "append" and norm(c.func.value).endswith("unpacksizes") and c.args
+               and isinstance(c.args[0], ast.BinOp) and isinstance(c.args[0].op, ast.Sub)
+               and any(isinstance(x, ast.Call) and attr_tail(x) == "get_unpack_size" for x in ast.walk(c.args[0]))]
+    ctx.floor(rule, len(implied), 1, "implied last-substream size in SubstreamsInfo._read")
+    for c in implied:
+        conds = _enclosing_conditions(f, q.node_for(f, c).ast if hasattr(q.node_for(f, c), "ast") else c)
+        guarded = any(_cmp_with_small(t, is_count_f) for t, pol in conds) or any(_cmp_with_small(cd, is_count_f) for cd, pol in q.facts_at(f, c))
+        ctx.check(guarded, rule, f, c, "the implied last size is appended only for folders with at least one substream",
+                  "SubstreamsInfo._read appends an implied size (folder size minus the listed sizes) even for a folder with NumUnpackStream 0: the size list gets "
+                  "an entry no member owns and every later member reads its neighbour's size", construct="implied size of empty folder")
+    # (c) ---------------------------------------------------------------------------------------------------------
+    ex = ctx.prog.func("py7zr", "Worker.extract")
+    fol = ctx.prog.cls("Folder", "archiveinfo")
+    init = fol.methods.get("__init__")
+    never_none = init is not None and any(
+        isinstance(n, (ast.Assign, ast.AnnAssign)) and any(isinstance(t, ast.Attribute) and t.attr == "files" for t in (n.targets if isinstance(n, ast.Assign) else [n.target]))
+        and n.value is not None and not (isinstance(n.value, ast.Constant) and n.value.value is None) for n in walk(init.node))
+    if never_none:
+        ctx.ok(rule, "Folder.files is initialised to a container: iterating it needs no guard")
+        return
+    ecfg = cfg_of(ex.node)
+    n_loops = 0
+    for lp in [n for n in walk(ex.node) if isinstance(n, ast.For)]:
+        # uses of a subscripted folder (folders[i]) in the loop
+        uses = [n for n in ast.walk(lp) if isinstance(n, ast.Subscript) and isinstance(n.value, ast.Name)
+                and any(norm(v).endswith("unpackinfo.folders") or isinstance(v, ast.ListComp) for v in q.assigned_values(ex, n.value.id))]
+        if not uses:
+            continue
+        n_loops += 1
+        guards = []
+        for t in ecfg.nodes:
+            if t.kind != "test" or not any(t.ast is x for x in ast.walk(lp)):
+                continue
+            nt = q.is_none_test(t.ast)
+            if nt is not None and isinstance(nt[0], ast.Attribute) and nt[0].attr == "files":
+                bad_edge = next((s_ for s_ in t.succ if s_.kind == ("true" if nt[1] else "false")), None)
+                guards.append((t, bad_edge))
+        for u in uses:
+            if any(any(u is x for x in ast.walk(t.ast)) for t, _ in guards):
+                continue
+            un = q.node_for(ex, u)
+            ok = any(ecfg.dominates(t, un) and be is not None and not ecfg.reaches(be, un, avoid=[ecfg.by_ast[lp]]) for t, be in guards)
+            ctx.check(ok, rule, ex, u, "folder task dispatch uses folders[i] only behind a `files is None` guard",
+                      f"`{norm(u)}` (its member list `.files` is None for a folder no member was bound to, e.g. NumUnpackStream 0) is used without a preceding "
+                      "`files is None` guard in the dispatch loop: extractall()/testzip() of a valid multi-folder archive raise TypeError",
+                      construct=f"unguarded {norm(u)}")
+    ctx.floor(rule, n_loops, 2, "folder dispatch loops in Worker.extract")
+
+
 def run(ctx: Ctx) -> None:
+    r06_12(ctx)
+    r06_11(ctx)
+    r06_10(ctx)
+    r06_9(ctx)
     r06_1(ctx)
     r06_2(ctx)
     r06_3(ctx)
